@@ -334,7 +334,8 @@ var Ops = []Op{
 		if err != nil || pub == nil {
 			return "err"
 		}
-		if common.BLSPubkey(pub.Serialize()) != e.Keys[i] {
+		cp := *pub // Serialize normalises its receiver in place (kilic G1.Affine): never call it on the shared key
+		if common.BLSPubkey(cp.Serialize()) != e.Keys[i] {
 			return "wrong-key"
 		}
 		return "ok"
